@@ -124,6 +124,9 @@ def run(ctx: Ctx) -> None:
             ctx.corr_compared += 1
             if not g.startswith(f"ok {r['final_line']} "):
                 ctx.mismatch("block loop: implementation and engine model end differently", {"request": monitor.loop_request(r)[:500], "impl": r["final_line"], "model": g})
+        # tie of the modelled block sub-parsers (leaf rules, block quotes, lists)
+        from . import miniblock
+        miniblock.tie_all(ctx, drv, quick)
     finally:
         drv.close()
     ctx.cov["rule_calls_monitored"] = mon.calls
